@@ -92,6 +92,38 @@ class Accumulate(RuleAnalysis):
         got = {x.id for x in ast.walk(test) if isinstance(x, ast.Name)} | {dotted(x) for x in ast.walk(test) if isinstance(x, ast.Attribute)}
         return bool(got & names)
 
+    def _checks_limit(self, call, fresh, pending) -> bool:
+        """a call of a function of this module (possibly through a local alias: `check = _Parser._check_size`) whose body is the guard
+        `if <size param> > <limit param>: raise LimitOverrunError(...)`, given the current accumulated size and the limit"""
+        if self.fn is None:
+            return False
+        f = call.func
+        if isinstance(f, ast.Name):
+            from sa.analyses.buffers import through_local
+            f = through_local(self.fn, f)
+        name = (dotted(f) or "").split(".")[-1]
+        if not name:
+            return False
+        cands = [g for g in self.fn.module.functions.values() if g.name == name] + [m for ci in self.fn.module.classes.values() for m in ci.methods.values() if m.name == name]
+        for g in cands:
+            if isinstance(g.node, ast.Lambda):
+                continue
+            ps = [a.arg for a in g.params()]
+            if g.cls is not None and ps and not g.has_decorator("staticmethod"):
+                ps = ps[1:]
+            amap = dict(zip(ps, call.args))
+            amap.update({k.arg: k.value for k in call.keywords if k.arg})
+            for i in own_nodes(g.node):
+                if isinstance(i, ast.If) and isinstance(i.test, ast.Compare) and len(i.test.ops) == 1 and isinstance(i.test.ops[0], (ast.Gt, ast.GtE)) \
+                        and any(isinstance(r, ast.Raise) and r.exc is not None and "LimitOverrunError" in ast.unparse(r.exc) for r in i.body):
+                    l, r = i.test.left, i.test.comparators[0]
+                    if isinstance(l, ast.Name) and isinstance(r, ast.Name) and l.id in amap and r.id in amap:
+                        size_arg, limit_arg = amap[l.id], amap[r.id]
+                        cur = self._current(size_arg, fresh) or not pending or any(ast.unparse(x).startswith("len(") for x in ast.walk(size_arg) if isinstance(x, ast.Call))
+                        if cur and self._mentions(limit_arg, self.limit_names):
+                            return True
+        return False
+
     def _is_search(self, node) -> bool:
         from sa.flow import ForIter
         if isinstance(node, ast.Call):
@@ -141,6 +173,8 @@ class Accumulate(RuleAnalysis):
                 return [(pending, searched, True, limit_ok, fresh)]
         if isinstance(node, ast.Call) and "limit" in _cname(node).lower() and "check" in _cname(node).lower():
             return [(pending, searched, True, True, fresh)]  # a helper that checks the limit (verified separately)
+        if isinstance(node, ast.Call) and self._checks_limit(node, fresh, pending):
+            return [(pending, searched, True, True, fresh)]
         if self._is_search(node):
             return [(pending, True, size_ok, limit_ok, fresh)]
         return [fact]
